@@ -137,10 +137,13 @@ class DtnTimeField(UintField):
             return DtnTimeField.datetime_to_dtntime(x)
 
         elif isinstance(x, (str, bytes)):
-            return DtnTimeField.datetime_to_dtntime(
-                datetime.datetime.fromisoformat(x)
-                .replace(tzinfo=datetime.timezone.utc)
-            )
+            if isinstance(x, bytes):
+                x = x.decode('ascii')
+            dtval = datetime.datetime.fromisoformat(x)
+            if dtval.tzinfo is None:
+                # text without an offset means UTC
+                dtval = dtval.replace(tzinfo=datetime.timezone.utc)
+            return DtnTimeField.datetime_to_dtntime(dtval)
 
         return int(x)
 
